@@ -410,7 +410,8 @@ func (e *Exec) pktBytes(st *State, p *Term, pkt types.Type) *Term {
 // frameOldObjects: after a havoc by a trusted library call that only creates
 // new objects, every heap in mod is unchanged on objects allocated before.
 func (e *Exec) frameOldObjects(st *State, old *Snapshot, mod map[string]Sort) {
-	for name, s := range mod {
+	for _, name := range sortedSortKeys(mod) {
+		s := mod[name]
 		if name == "*" {
 			continue
 		}
